@@ -13,6 +13,7 @@ theorem Inv.set_hn {ctx : Ctx} {T : List FEntry} {c : SCfg} {m : Cfg} (h : Inv c
 theorem esim_leaf (ctx : Ctx) (T : List FEntry) (B : Nat) (src : Nat → SCfg → Option (R (List Opd))) (lo : Nat) (ts : List String)
     (h : ∀ fuel c res, src fuel c = some res → ∃ os, res = .ok os c ∧ ∀ ρ0, HoldsAllF ctx ts os lo ρ0) :
     ESim ctx T B src [] lo 0 ts := by
+  refine ⟨LinesOK.nil _ _ _, ?_⟩
   intro fuel c res hs m hi
   obtain ⟨os, rfl, hh⟩ := h fuel c res hs
   exact ⟨m, ExecCmds.nil, hi, Ctl.refl m, KeepE.refl _ _ _ m, fun _ => hh m.ρ⟩
@@ -26,19 +27,21 @@ theorem map_reverse_append (a b : List Line) :
 /-- one operand, then a line that stores the result in the next helper variable -/
 theorem esim_unary {ctx : Ctx} {T : List FEntry} {B : Nat} {srcX src : Nat → SCfg → Option (R (List Opd))} {newX : List Line}
     {lo nX : Nat} {tx : String} (hx : ESim ctx T B srcX newX lo nX [tx]) (line : Line) (hcall : isCall line = false)
+    (hline : SLine ctx 0 (tnames T) line)
     (hsrc : ∀ fuel c res, src fuel c = some res →
       (∃ f k c1, srcX f c = some (.exit k c1) ∧ res = .exit k c1) ∨
       (∃ f o c1 w, srcX f c = some (.ok [o] c1) ∧ res = .ok [.lit w] c1 ∧
         ∀ m1, AgreeF ctx c1 m1 → HoldsF ctx tx o (lo + nX) m1.ρ →
           stepSimple line m1 = some (.normal, { m1 with ρ := m1.ρ.set (ctx.hn (lo + nX)) w.render }))) :
     ESim ctx T B src (line :: newX) lo (nX + 1) ["${" ++ ctx.hn (lo + nX) ++ "}"] := by
+  refine ⟨LinesOK.cons hline hx.lines, ?_⟩
   intro fuel c res hs m hi
   rcases hsrc fuel c res hs with ⟨f, k, c1, hx1, rfl⟩ | ⟨f, o, c1, w, hx1, rfl, hstep⟩
-  · obtain ⟨m1, ex, ho⟩ := hx f c _ hx1 m hi
+  · obtain ⟨m1, ex, ho⟩ := hx.run f c _ hx1 m hi
     refine ⟨m1, ?_, ho⟩
     rw [map_reverse_cons]
     exact execCmds_stop_append _ ex (by simp)
-  · obtain ⟨m1, ex, hi1, hc1, hk1, hh1⟩ := hx f c _ hx1 m hi
+  · obtain ⟨m1, ex, hi1, hc1, hk1, hh1⟩ := hx.run f c _ hx1 m hi
     have hst := hstep m1 hi1.agree (hh1 rfl).1
     refine ⟨{ m1 with ρ := m1.ρ.set (ctx.hn (lo + nX)) w.render }, ?_, hi1.set_hn _ _, ?_, ?_, ?_⟩
     · rw [map_reverse_cons]
@@ -55,6 +58,7 @@ theorem esim_unary {ctx : Ctx} {T : List FEntry} {B : Nat} {srcX src : Nat → S
 theorem esim_binary {ctx : Ctx} {T : List FEntry} {B : Nat} {srcL srcR src : Nat → SCfg → Option (R (List Opd))}
     {newL newR : List Line} {lo nL nR : Nat} {tl tr : String}
     (hl : ESim ctx T B srcL newL lo nL [tl]) (hr : ESim ctx T B srcR newR (lo + nL) nR [tr]) (line : Line) (hcall : isCall line = false)
+    (hline : SLine ctx 0 (tnames T) line)
     (hsrc : ∀ fuel c res, src fuel c = some res →
       (∃ f k c1, srcL f c = some (.exit k c1) ∧ res = .exit k c1) ∨
       (∃ f a c1, srcL f c = some (.ok [a] c1) ∧
@@ -63,19 +67,20 @@ theorem esim_binary {ctx : Ctx} {T : List FEntry} {B : Nat} {srcL srcR src : Nat
             ∀ m2, AgreeF ctx c2 m2 → HoldsF ctx tl a (lo + nL + nR) m2.ρ → HoldsF ctx tr b (lo + nL + nR) m2.ρ →
               stepSimple line m2 = some (.normal, { m2 with ρ := m2.ρ.set (ctx.hn (lo + nL + nR)) w.render }))))) :
     ESim ctx T B src (line :: (newR ++ newL)) lo (nL + nR + 1) ["${" ++ ctx.hn (lo + nL + nR) ++ "}"] := by
+  refine ⟨LinesOK.cons hline (hr.lines.append hl.lines), ?_⟩
   intro fuel c res hs m hi
   rcases hsrc fuel c res hs with ⟨f, k, c1, hx1, rfl⟩ | ⟨f, a, c1, hx1, hrest⟩
-  · obtain ⟨m1, ex, ho⟩ := hl f c _ hx1 m hi
+  · obtain ⟨m1, ex, ho⟩ := hl.run f c _ hx1 m hi
     refine ⟨m1, ?_, ho⟩
     rw [map_reverse_cons, map_reverse_append, List.append_assoc]
     exact execCmds_stop_append _ ex (by simp)
-  · obtain ⟨m1, ex1, hi1, hc1, hk1, hh1⟩ := hl f c _ hx1 m hi
+  · obtain ⟨m1, ex1, hi1, hc1, hk1, hh1⟩ := hl.run f c _ hx1 m hi
     rcases hrest with ⟨f', k, c2, hx2, rfl⟩ | ⟨f', b, c2, w, hx2, rfl, hstep⟩
-    · obtain ⟨m2, ex2, ho⟩ := hr f' c1 _ hx2 m1 hi1
+    · obtain ⟨m2, ex2, ho⟩ := hr.run f' c1 _ hx2 m1 hi1
       refine ⟨m2, ?_, ho⟩
       rw [map_reverse_cons, map_reverse_append, List.append_assoc]
       exact execCmds_append ex1 (execCmds_stop_append _ ex2 (by simp))
-    · obtain ⟨m2, ex2, hi2, hc2, hk2, hh2⟩ := hr f' c1 _ hx2 m1 hi1
+    · obtain ⟨m2, ex2, hi2, hc2, hk2, hh2⟩ := hr.run f' c1 _ hx2 m1 hi1
       have hhl : HoldsF ctx tl a (lo + nL + nR) m2.ρ := (hh1 rfl).1.mono (by omega) (fun j hj => hk2.helpers j hj)
       have hst := hstep m2 hi2.agree hhl (hh2 rfl).1
       refine ⟨{ m2 with ρ := m2.ρ.set (ctx.hn (lo + nL + nR)) w.render }, ?_, hi2.set_hn _ _, ?_, ?_, ?_⟩
